@@ -1113,6 +1113,13 @@ public:
   template<typename T>
   inline tainted<T*, T_Sbx> INTERNAL_get_sandbox_function_ptr(void* func_ptr)
   {
+    // The address is wrapped without a range check because a function pointer
+    // is not an address in sandbox memory. That only holds for functions: for
+    // any other named entity (a variable, a struct member, an array) the result
+    // would be a tainted pointer to data that no check has ever seen
+    static_assert(std::is_function_v<T>,
+                  "get_sandbox_function_address/sandbox_function_address can "
+                  "only be applied to functions");
     return tainted<T*, T_Sbx>::internal_factory(reinterpret_cast<T*>(func_ptr));
   }
 
